@@ -143,3 +143,20 @@ Print Assumptions C02_pypi_exists.
    is reported Invalid *)
 Theorem C02_gha_accepts_ref_like : forall s, normalize_parse s <> None -> ref_like s = true.
 Proof. exact gha_accepts_ref_like. Qed.
+
+(* semver::Version: Display after from_str gives the text back, so from_str is injective - two cached spellings that
+   parse to the same version are the same text *)
+From VL Require Import Proofs.ParseShow Proofs.GoSameProofs.
+Theorem C02_semver_parse_show : forall s v, SemVer.parse s = Some v -> show v = s.
+Proof. exact parse_show. Qed.
+Theorem C02_semver_parse_injective : forall a b v, SemVer.parse a = Some v -> SemVer.parse b = Some v -> a = b.
+Proof. exact parse_injective. Qed.
+(* go.mod: 'latest is inside' is the relation 'some version is inside' uses (identity modulo 'v' and '+incompatible'),
+   for every requirement that is not a pseudo-version and is a version at all *)
+Theorem C02_go_same_relation :
+  forall s l, is_pseudo_version s = false ->
+  (GoMatcher.compare_to_latest s l = Latest <->
+   SemVer.parse (normalize_go_version s) <> None /\ GoMatcher.version_exists s [l] = true).
+Proof. exact go_latest_iff_same. Qed.
+Print Assumptions C02_semver_parse_show.
+Print Assumptions C02_go_same_relation.
